@@ -568,10 +568,28 @@ func Files(j *job.Job, s *job.Sink) {
 					add(fooize(nm[0]), fooize(nm[1]), "", false)
 				}
 			}
-			if r.Intn(6) == 0 && len(files[d0]) == 0 {
+			hasExact := false
+			for _, x := range files[d0] {
+				if x.file == base+".yang" {
+					hasExact = true
+				}
+			}
+			// (a directory of that name may stand next to dated candidates: it is no file)
+			if r.Intn(6) == 0 && !hasExact {
 				os.MkdirAll(filepath.Join(root, d, base+".yang"), 0o755) // a directory named like the file
 				layout = append(layout, map[string]string{"dir": d, "file": base + ".yang/", "marker": "(directory)"})
 			}
+		}
+		// A second module, zzy, has a file in every directory: whatever the first fetch found
+		// and wherever, the second one starts at the front of the search path again.
+		dirOf := map[string]string{}
+		for _, d0 := range dirs {
+			d := d0
+			if sub, ok := recursive[d0]; ok {
+				d = filepath.Join(d0, sub)
+			}
+			dirOf[d0] = d
+			os.WriteFile(filepath.Join(root, d, "zzy.yang"), []byte(mod("zzy", "zy-"+d0, "")), 0o644)
 		}
 		// expectation: first directory (cwd first) holding a candidate
 		want := ""
@@ -659,6 +677,17 @@ func Files(j *job.Job, s *job.Sink) {
 				}
 			}
 		})
+		// the second fetch
+		if rerr := ms.Read("zzy"); rerr != nil {
+			viol("second-fetch-failed", rerr.Error())
+		} else if m := ms.Modules["zzy"]; m == nil || len(m.Leaf) == 0 || m.Leaf[0].Name != "zy-cwd" {
+			got := "nothing"
+			if m != nil && len(m.Leaf) > 0 {
+				got = m.Leaf[0].Name
+			}
+			viol("second-fetch-wrong-file", fmt.Sprintf("after the fetch of %s, zzy was taken from %s; the current directory holds zzy.yang and comes first", base, got))
+		}
+		s.Count("second_fetches", 1)
 		os.Chdir(start)
 		// event-log check: which files were actually opened. Exactly the expected candidate,
 		// once, and never a file whose name is not foo.yang or foo@YYYY-MM-DD.yang.
@@ -708,7 +737,7 @@ func Files(j *job.Job, s *job.Sink) {
 			viol("wrong-file", fmt.Sprintf("loaded marker %q (err %v), expected %q", got, err, want))
 		}
 		for n := range ms.Modules {
-			if !strings.HasPrefix(n, base) && n != "imp" || strings.HasPrefix(n, base+"bar") || strings.HasPrefix(n, base+"-x") {
+			if !strings.HasPrefix(n, base) && n != "imp" && n != "zzy" || strings.HasPrefix(n, base+"bar") || strings.HasPrefix(n, base+"-x") {
 				viol("differently-named-module", "loaded "+n)
 			}
 		}
